@@ -1,7 +1,7 @@
 (* Correspondence for the quality figures of solution_score.rs on large participant numbers (C08): solution_quality and
    combined_quality are recomputed from their integer numerators/denominators with binary32 division (Flocq). *)
 From Coq Require Import List ZArith Bool NArith.
-Require Import Cert F32 Consts.
+Require Import Cert F32 Consts QualityComb.
 Import ListNotations.
 Open Scope Z_scope.
 
@@ -14,7 +14,7 @@ Definition check_qual (c : qual_case) : N :=
   let num := n * WEIGHT_OFFSET - score in
   let q_ok := Z.eqb qbits (quality_bits num n) in
   let o_ok := match ext, obits with
-              | Some (ni, pens), Some ob => Z.eqb ob (quality_bits (num + sumZ pens) (n + Z.of_nat (length pens) + ni))
+              | Some (ni, pens), Some ob => Z.eqb ob (quality_bits (comb_num n score ni pens) (comb_den n ni pens))
               | None, None => true | _, _ => false end in
   let cls := (0 <? n) && (0 <=? num) in
   ((if q_ok then 1 else 0) + (if o_ok then 2 else 0) + (if cls then 4 else 0))%N.
